@@ -12,15 +12,17 @@ import (
 	"encoding/hex"
 	"encoding/json"
 	"errors"
-	"net/http"
-	"net/http/httptest"
 	"flag"
 	"fmt"
 	"math"
+	"net/http"
+	"net/http/httptest"
 	"os"
 	"path"
 	"sort"
+	"strconv"
 	"strings"
+	"time"
 
 	"github.com/coreos/go-semver/semver"
 	"github.com/pingcap/kvproto/pkg/metapb"
@@ -220,7 +222,7 @@ type world struct {
 	ruleUnknown bool
 	unknown     bool // some write of this case was applied but reported failed
 	// the real HTTP API handler (server/api) of this server, driven in-process
-	api   http.Handler
+	api    http.Handler
 	steps  []jstep // requests of the current API-path case
 	forced *jstep  // replay: send exactly this recorded request
 }
@@ -291,8 +293,12 @@ func (w *world) applyRepl(dst *config.ReplicationConfig, c repl) {
 	dst.EnablePlacementRules = c.PR
 	dst.StrictlyMatchLabel = c.Strict
 }
-func (w *world) dashIn(d string) string  { return strings.ReplaceAll(d, "SELF", strings.TrimPrefix(w.self, "http://")) }
-func (w *world) dashOut(d string) string { return strings.ReplaceAll(d, strings.TrimPrefix(w.self, "http://"), "SELF") }
+func (w *world) dashIn(d string) string {
+	return strings.ReplaceAll(d, "SELF", strings.TrimPrefix(w.self, "http://"))
+}
+func (w *world) dashOut(d string) string {
+	return strings.ReplaceAll(d, strings.TrimPrefix(w.self, "http://"), "SELF")
+}
 func (w *world) applyPD(dst *config.PDServerConfig, c pdsrv) {
 	dst.DashboardAddress = w.dashIn(c.Dash)
 	dst.FlowRoundByDigit = int(c.Digit)
@@ -508,13 +514,13 @@ func (w *world) errRes(err error) string {
 
 // ---------- the API path: get -> unmarshal the request into what the getter returned -> set (server/api/config.go) ----------
 type jstep struct {
-	Path, Body  string
-	Code        int
-	Res         string
-	Before      string // full served configuration (JSON) before the request ...
-	After       string // ... and after it
-	Served      conf
-	Reload      conf
+	Path, Body string
+	Code       int
+	Res        string
+	Before     string // full served configuration (JSON) before the request ...
+	After      string // ... and after it
+	Served     conf
+	Reload     conf
 }
 
 func (w *world) fullServed() string {
@@ -607,6 +613,31 @@ func (w *world) apiRequest(r *rng.R, o op, tracked bool) (path string, body []by
 		t := w.s.GetPDServerConfig()
 		w.applyPD(t, o.P)
 		return w.sectionRequest(r, "pd-server", "", w.s.GetPDServerConfig(), t, &config.PDServerConfig{}, "")
+	case "limit":
+		// a map-valued item through the generic entry point: POST /config {"schedule.store-limit": {...}} with the whole target map
+		// (the rate of the given type replaced, the other one kept or the process default: what SetStoreLimit would do)
+		if r != nil && r.Pct(50) {
+			return "", nil, false
+		}
+		sv := w.s.GetScheduleConfig()
+		m := map[string]config.StoreLimitConfig{}
+		for id, l := range sv.StoreLimit {
+			m[strconv.FormatUint(id, 10)] = l
+		}
+		cur, ok := sv.StoreLimit[o.ID]
+		if !ok {
+			cur = config.StoreLimitConfig{AddPeer: float64(o.Dflt) / 1000, RemovePeer: float64(o.Dflt) / 1000}
+		}
+		if o.LT == 0 {
+			cur.AddPeer = float64(o.Rate) / 1000
+		} else {
+			cur.RemovePeer = float64(o.Rate) / 1000
+		}
+		if old, had := sv.StoreLimit[o.ID]; had && old == cur {
+			return "", nil, false // nothing changes: the generic entry point would not call the setter
+		}
+		m[strconv.FormatUint(o.ID, 10)] = cur
+		return "/config", mustJSON(map[string]interface{}{"schedule.store-limit": m}), true
 	case "setlabel", "dellabel":
 		act := map[string]string{"setlabel": "set", "dellabel": "delete"}[o.K]
 		return "/config/label-property", mustJSON(map[string]string{"action": act, "type": o.T, "label-key": o.L, "label-value": o.V}), true
@@ -1109,6 +1140,69 @@ type freeRec struct {
 	Steps []jstep
 }
 
+// runCoordinatorStart: an update accepted by a freshly elected leader while the coordinator still waits for the cluster to be
+// prepared, then the real coordinator start (the bootstrap region heartbeats, coordinator.run() passes its wait, creates the
+// schedulers and writes the schedule config back): what is served and stored afterwards must still be the update.
+func (w *world) runCoordinatorStart(boot conf, r *rng.R) freeRec {
+	w.reset(boot, false)
+	w.steps = nil
+	w.unknown = false
+	f := freeRec{Via: "coordinator-start", Boot: boot}
+	// as on a freshly elected leader, the region loaded from storage has no leader yet (the BasicCluster of this process may still
+	// carry the leader an earlier case reported): its first heartbeat is what the prepare checker counts
+	if reg := w.rc.GetRegion(900001); reg != nil {
+		w.s.GetBasicCluster().PutRegion(core.NewRegionInfo(reg.GetMeta(), nil))
+	}
+	cur := w.snapshot("ROk").Served
+	if len(w.rc.GetSchedulers()) != 0 {
+		w.notes["coordinator-start: the coordinator was already running after the reset"] = true
+	}
+	for k := 0; k < 3; k++ { // updates inside the window (schedule section, plus whatever else comes)
+		o := gen(r, cur, false)
+		if k == 0 {
+			o = op{K: "sched", S: genSched(r, cur.Sched, false)}
+		}
+		o.F = fault{}
+		o = w.narrow(r, o, cur)
+		cur = w.execAPI(r, o, false).Served
+		f.Ops = append(f.Ops, o)
+	}
+	before := w.fullServed()
+	prev := w.snapshot("ROk")
+	// the bootstrap region reports: the cluster is prepared; the coordinator checks every runSchedulerCheckInterval (3 s)
+	reg := w.rc.GetRegion(900001)
+	if reg == nil {
+		panic("bootstrap region missing")
+	}
+	w.kb.Arm(nil)
+	if err := w.rc.HandleRegionHeartbeat(core.NewRegionInfo(reg.GetMeta(), reg.GetMeta().GetPeers()[0])); err != nil {
+		panic(err)
+	}
+	// coordinator.run() ends its start-up by writing the schedule section back and persisting the options: wait for that write
+	started := func() bool {
+		for _, e := range w.kb.Entries() {
+			if e.Group == "config" {
+				return true
+			}
+		}
+		return false
+	}
+	dl := time.Now().Add(10 * time.Second)
+	for !started() && time.Now().Before(dl) {
+		time.Sleep(50 * time.Millisecond)
+	}
+	if !started() {
+		w.notes["coordinator-start: no write-back of the coordinator within 10 s (step recorded as a no-op)"] = true
+	}
+	time.Sleep(100 * time.Millisecond)
+	sn := w.snapshot("ROk")
+	w.steps = append(w.steps, jstep{Path: "coordinator-start", Res: "ROk", Before: before, After: w.fullServed(), Served: sn.Served, Reload: prev.Served})
+	w.steps = append(w.steps, jstep{Path: "after-coordinator-start", Res: "ROk", Before: w.fullServed(), After: w.fullServed(), Served: sn.Served, Reload: sn.Reload})
+	f.Ops = append(f.Ops, op{K: "coordinator-start"}, op{K: "coordinator-start"})
+	f.Steps = w.steps
+	return f
+}
+
 func (w *world) runFree(boot conf, r *rng.R, nops int, useEtcd bool) freeRec {
 	w.reset(boot, useEtcd)
 	w.steps = nil
@@ -1161,6 +1255,7 @@ func main() {
 	tier := flag.String("tier", "quick", "")
 	corpus := flag.String("corpus", "", "json file of fixed cases run first")
 	replay := flag.String("replay", "", "json file with cases (or an evidence replay file)")
+	ncoord := flag.Int("coord", 2, "number of cases with an update before the real coordinator start (about 3.5 s each)")
 	nfree := flag.Int("free", 40, "number of model-free histories of HTTP requests (replication-mode requests included)")
 	flag.Parse()
 
@@ -1294,6 +1389,11 @@ func main() {
 			r := master.Fork(uint64(1000000 + k))
 			frees = append(frees, w.runFree(defaultBoot(r), r, 8+r.Intn(14), k%6 == 5))
 			R.Count("stream:api-free")
+		}
+		for k := 0; k < *ncoord; k++ {
+			r := master.Fork(uint64(2000000 + k))
+			frees = append(frees, w.runCoordinatorStart(defaultBoot(r), r))
+			R.Count("stream:coordinator-start")
 		}
 	}
 	if err := cf.Flush(); err != nil {
